@@ -720,9 +720,17 @@ func cplCmd(args []string) int {
 		p := cplGen(r, id, ms, straightIdx, *maxlen, -1, pilot)
 		if id%8 == 5 {
 			// same draws, base chosen so that the last byte of the program is the last byte of the bank
+			// (the pilots' flags may depend on the base, hence the branches chosen and the length: then keep the first program)
 			r2 := r1
-			p = cplGen(&r2, id, ms, straightIdx, *maxlen, len(p.bytes), pilot)
-			*r = r2
+			p2 := cplGen(&r2, id, ms, straightIdx, *maxlen, len(p.bytes), pilot)
+			if len(p2.bytes) == len(p.bytes) {
+				p = p2
+				*r = r2
+			}
+		}
+		if (p.base&0xFFFF)+uint32(len(p.bytes)) > 0x10000 {
+			stats["crosses_bank_end_skipped"]++ // outside the property's hypothesis (cannot happen by construction)
+			continue
 		}
 		if *only >= 0 && id != *only {
 			continue
